@@ -546,6 +546,56 @@ def ancestors(e, top):
 # ---- main ----------------------------------------------------------------------------------------------
 
 
+def move_end_tags(chk, rng, p, xml0, hist, labels, other, nontriv):
+    """the end tag of a range (reference mark / annotation) is set again somewhere else — `set_reference_mark_end`,
+    `insert_annotation_end`: 'if some end tag already exists, replace it' —, also on a point reference mark (it becomes a range):
+    the paragraph reads the same, and holds exactly one end tag of that name"""
+    from odfdo import Annotation
+
+    starts = [e for e in p.get_elements("descendant::text:reference-mark-start | descendant::text:reference-mark | descendant::office:annotation")
+              if e.get_attribute_string("text:name") or e.get_attribute_string("office:name")]
+    if not starts:
+        return
+    for _ in range(rng.randint(1, 2)):
+        e = rng.choice(starts)
+        if e.parent is None:
+            continue
+        t0 = snapshot(p, labels, other)
+        words = re.findall(r"\w+", node_chars(t0, main_only=True))
+        how = rng.choice(["position", "before", "after"]) if words else "position"
+        kw = {"position": rng.randrange(0, max(1, len(node_chars(t0, main_only=True)) + 1))} if how == "position" else {how: re.escape(rng.choice(words)), "position": rng.choice([0, 0, 1, -1])}
+        is_annot = isinstance(e, Annotation)
+        name = e.name
+        case = {"xml": xml0, "history": [list(x) for x in hist], "op": "insert_annotation_end" if is_annot else "set_reference_mark_end", "name": name, "args": {k: v for k, v in kw.items()}}
+        chk.case((xml0, tuple(hist), case["op"], repr(kw)), nontrivial=nontriv)
+        chk.count("move end tag", case["op"] + " " + how)
+        try:
+            if is_annot:
+                p.insert_annotation_end(e, **kw)
+            else:
+                p.set_reference_mark_end(e, **kw)
+        except (ValueError, IndexError):
+            # no such place: nothing may have changed
+            if snapshot(p, labels, other) != t0:
+                chk.fail({**case, "clause": "raise-without-partial-modification"}, f"{case['op']} raised and left the paragraph modified")
+                return
+            continue
+        except Exception as ex:  # noqa: BLE001
+            chk.fail({**case, "exception": repr(ex), "clause": "raises"}, f"{case['op']} raised {type(ex).__name__}")
+            return
+        t1 = snapshot(p, labels, other)
+        if not text_ok(chk, case, t0, t1, f"{case['op']} (moving the end of a range) altered the paragraph text"):
+            return
+        q = "descendant::office:annotation-end[@office:name=$n]" if is_annot else "descendant::text:reference-mark-end[@text:name=$n]"
+        n_end = len(pt.lxml_of(p).xpath(q, namespaces={"office": "urn:oasis:names:tc:opendocument:xmlns:office:1.0", "text": "urn:oasis:names:tc:opendocument:xmlns:text:1.0"}, n=name))
+        if n_end != 1:
+            chk.fail({**case, "clause": "one-end-tag", "end_tags": n_end}, f"after {case['op']} the range has {n_end} end tags")
+            return
+        starts = [x for x in p.get_elements("descendant::text:reference-mark-start | descendant::office:annotation") if x.get_attribute_string("text:name") or x.get_attribute_string("office:name")]
+        if not starts:
+            return
+
+
 def run(chk: core.Check) -> None:
     from odfdo import Element
 
@@ -554,7 +604,8 @@ def run(chk: core.Check) -> None:
         "layouts: random inline forests (text, nested spans / links, text:s, tab, line-break, bookmarks, notes; a quarter with raw white-space runs in text "
         "nodes) x operations: set_span / set_link by regex (22 patterns: literals, classes, repetitions, alternations, anchors, groups) and by offsets in "
         "and beyond range x lengths; marks by before / after / position / content / (from, to); notes and annotations; histories of up to 3 insertions, then "
-        "every removal. non-trivial = the layout has more than one text node or a white-space element; distinct by (layout xml, operation history)"
+        "every removal; then the end tag of a range (reference mark, annotation, also a point mark turned into a range) is set again elsewhere "
+        "(set_reference_mark_end / insert_annotation_end by position / before / after). non-trivial = the layout has more than one text node or a white-space element; distinct by (layout xml, operation history)"
     )
     chk.classifiers["offset_counts_text_nodes_only"] = lambda case: case.get("clause") == "offset-designates-readable-substring"
     n_layouts = chk.n(400, 6000)
@@ -594,6 +645,8 @@ def run(chk: core.Check) -> None:
                     break
             if ok and h < 3:
                 check_removals(chk, rng, p.serialize(), labels, other, nontriv)
+            if ok and h < 4:
+                move_end_tags(chk, rng, p, xml0, hist, labels, other, nontriv)
     answers = core.run_driver([q for q, _, _, _ in chk.reqs])
     for (q, exp, case, modulo_blanks), ans in zip(chk.reqs, answers):
         if modulo_blanks:
